@@ -36,10 +36,7 @@ def decided (A : List (List Float)) (r : List Float) : Bool :=
 
 /-- Cholesky solve, or the NaN vector where the solve fails or is not `decided` -/
 def solveF (A : List (List Float)) (r : List Float) : List Float :=
-  if decided A r then
-    match cholSolve A r with
-    | some x => x
-    | none => r.map fun _ => nanF
+  if decided A r then cholSolve4 nanF A r
   else r.map fun _ => nanF
 
 def rows4 (l : List Float) : List (List Float) :=
